@@ -338,6 +338,26 @@ def check_case(case):
                 res.violation("assignment history|raised", f"{names}: {type(e).__name__}: {e}", case, {"history": names})
             res.traces += 1
         res.hits["assignment histories"] += 1
+    # like() with data of another channel count: the odd-count rule must be applied to the NEW count
+    if n >= 2:
+        for m in (n - 1, n + 1, 1):
+            arr = np.zeros((4, m) + tuple(zn.shape[2:]), dtype=zn.dtype)
+            try:
+                y = type(zn).like(zn, arr)
+            except Exception as e:
+                res.violation("like(other channel count)|raised", f"{n} -> {m} channels: {type(e).__name__}: {e}", case, {"m": m})
+                continue
+            res.transitions += 1
+            a_ = A[y.freq_align] if m % 2 == 0 else F(1, 2)      # (an odd-count parent has already been forced to 'center')
+            wl = [hz(y.center_freq) + hz(y.chan_bw) * (j + a_ - F(m, 2)) for j in range(m)]
+            gl = labels_of(y.channel_freqs)
+            sc_ = max(abs(hz(y.center_freq)), m * hz(y.chan_bw))
+            if (m % 2 and y.freq_align != "center") or len(gl) != m or max(abs(g - w) for g, w in zip(gl, wl)) > sc_ * 8 * REL:
+                res.violation("like(other channel count)|labels", f"like(z, data with {m} channels) from {n} channels aligned "
+                              f"{case['align']!r}: freq_align {y.freq_align!r}, labels {[float(g) for g in gl][:3]}.. expected "
+                              f"{[float(w) for w in wl][:3]}..", case, {"m": m})
+            else:
+                res.hits["like() with another channel count"] += 1
     # component selection
     if cls == "FullStokesSignal":
         for k, name in enumerate("IQUV"):
@@ -385,7 +405,7 @@ def main(argv=None):
     return report.run_check(
         PID, gen_cases=gen_cases, check_case=check_case, describe=describe,
         required_hits=["odd nchan forced center", "negative channel bound", "open channel bound", "nested slice",
-                       "even->even->even from non-center alignment", "combined slice", "assignment histories", "refused assignments leave labels", "stokes component",
+                       "even->even->even from non-center alignment", "combined slice", "assignment histories", "refused assignments leave labels", "like() with another channel count", "stokes component",
                        "trailing-axis selection"],
         assumptions=["Quantity unit scales are exact decimals (kHz = 1000 Hz); tolerance 8 ulp of max(|fc|, n*bw) per level",
                      "empty channel ranges and channel steps are outside the property"],
